@@ -218,16 +218,16 @@ class IPPOGae(Case):
     assumptions = ("done flags and next_done are 0/1", "observation labels pairwise distinct (rows are identified by their observation)")
     outside = ("minibatch loop, losses, optimisers (after the capture point)", "heterogeneous groups are run one group at a time")
 
-    def __init__(self, T, E, A, OD=1, obs="box"):
-        self.T, self.E, self.A, self.OD, self.obs = T, E, A, OD, obs
-        self.name = f"ippo-gae-T{T}-E{E}-A{A}-od{OD}" + ("" if obs == "box" else f"-{obs}")
+    def __init__(self, T, E, A, OD=1, obs="box", ids=None):
+        self.T, self.E, self.A, self.OD, self.obs, self.ids = T, E, A, OD, obs, ids
+        self.name = f"ippo-gae-T{T}-E{E}-A{A}-od{OD}" + ("" if obs == "box" else f"-{obs}") + ("" if ids is None else "-ids-" + ".".join(ids))
         self.bounds = {"T": T, "num_envs": E, "homogeneous_agents": A, "obs_dim": OD, "observation_space": obs,
                        "symbolic": "per (agent,t,env): reward, value, done, log-prob, obs/action labels; next_done, bootstrap values, gamma, gae_lambda"}
         self._agent = None
 
     def agent(self):
         if self._agent is None:
-            ids = [f"ag_{i}" for i in range(self.A)]
+            ids = list(self.ids) if self.ids else [f"ag_{i}" for i in range(self.A)]
             self._agent = IPPO([obs_space(self.obs, self.OD)] * self.A, [spaces.Discrete(2)] * self.A, agent_ids=ids)
         return self._agent
 
@@ -539,7 +539,7 @@ class Minibatch(Case):
 def cases(tier):
     cs = [Minibatch(3, 2), Minibatch(4, 4), PPOGae(3, 2), PPOGae(2, 1), PPOGae(3, 1, vectorized=False), PPOGae(1, 2),
           IPPOGae(2, 2, 2), IPPOGae(2, 2, 1), IPPOGae(1, 2, 2), IPPOGae(2, 1, 2),
-          IPPOGae(2, 2, 2, obs="tuple"), IPPOGae(2, 2, 2, obs="dict"), PPOGae(2, 2, obs="tuple"), PPOGae(2, 2, obs="dict"),
+          IPPOGae(2, 1, 2, ids=["ag_b", "ag_a"]), IPPOGae(1, 2, 3, ids=["ag_2", "ag_10", "ag_1"]), IPPOGae(2, 2, 2, obs="tuple"), IPPOGae(2, 2, 2, obs="dict"), PPOGae(2, 2, obs="tuple"), PPOGae(2, 2, obs="dict"),
           PPOCollect(2, 2), PPOCollect(3, 1), IPPOCollect(2, 1, 2), IPPOCollect(1, 2, 2)]
     if tier == "thorough":
         cs += [PPOGae(5, 3), PPOGae(4, 2, OD=2), PPOGae(5, 1, vectorized=False)]
